@@ -54,8 +54,10 @@ LEVEL_NOTE = ("The 1-D lookup is modelled by its exact meaning (last edge <= x, 
               "shipped arrays, validated bit for bit on every run); the number of decimals repr() shows is computed by the model since round 4 "
               "(compared with the implementation's own nested helper and with Decimal(repr(x)) on every run). Spacings that are not short decimals "
               "(1/30, 1/35, the noise of a float difference) take the fallback path of cleaner_range: modelled bit-exactly and generated, judged by the "
-              "partition oracle with the lattice 'to rounding' (1e-12); no theorem covers that path, and its displacement class is a genuine-defect "
-              "candidate that is observed, not enforced (AWAITING_DECISION_BUILD). "
+              "partition oracle with the lattice 'to rounding' (1e-12). Its displacement class (coarse anchor, fine noisy spacing) was decided a genuine "
+              "defect (D49) and repaired in /repo: the model is of the repaired branch, the old one is a kernel-checked finding "
+              "(finding_cleaner_fallback_displaced_region), the repaired noisy-spacing region is proved by kernel evaluation (repaired_noisy_region) and "
+              "noisy_axis_starts_at_anchor shows the edge array of such an axis always starts at the smallest origin itself. "
               "Cell areas: closed form, additivity and positivity are proved over a field / the reals; the float evaluation "
               "(libm cosine) is compared to 1e-9 with a cancellation-aware absolute term.")
 DESIGN_REF = "DESIGN.md §4 C01"
@@ -81,6 +83,7 @@ THEOREMS = ["Region.col_eq_iff", "Region.row_eq_iff", "Region.col_eq_floor", "Re
             # Properties/C01_Repr.lean (round 4): num_decimals / repr inside the model; global_region
             "Region.repr_lattice_construction", "Region.repr_lattice_integers", "Region.inferred_spacing_repr",
             "Region.global_coordinates", "Region.global_region_construction", "Region.product_decimalGrid", "Region.mem_productN",
+            "Region.finding_cleaner_fallback_displaced_region", "Region.repaired_noisy_region", "Region.noisy_axis_starts_at_anchor",
             # Properties/C01_Float.lean (round 4): C01 o C02 — the FLOAT lookups give the exact partition cell outside the band
             "Region.cnt_eq_countP", "Region.topF_eq_top64", "Region.binE_eq_ideal", "Region.allowed_closed_shape",
             "Region.float_col_exact", "Region.float_col_adjacent", "Region.float_lookup_exact", "Region.built_float_lookup_exact",
@@ -1219,17 +1222,13 @@ NICE = ["0.05", "0.1", "0.25", "0.5", "1", "2"]
 # difference. `cleaner_range` takes its fallback path for them (Model/RegionBuild.lean `cleanerRangeAll`).
 NOISY_DH = [1 / 3, 1 / 6, 1 / 7, 2 / 3, 1 / 30, 1 / 35, 1 / 60, 1 / 70, 0.1 / 3, 0.1 + 0.2, 0.7123456789012345, 0.0712345678901234]
 
-# Input class on which the unchanged code misbehaves (genuine-defect candidate, witness + proposed patch in notes/C01.md):
-# generated on purpose by `observe_displaced_region`, observed and counted, not enforced.
-AWAITING_DECISION_BUILD = [
-    "a region whose spacing is not a short decimal (16+ decimals: 1/30, 1/35, …) and whose smallest origin coordinate x0 has "
-    "10**num_decimals(x0) < 1/dh and is not a multiple of dh: cleaner_range's fallback path rounds x0 to a multiple of dh, the "
-    "edge arrays are displaced by up to dh/2 and the region masks its own origins / midpoints",
-]
+# (round 4's AWAITING_DECISION_BUILD — a noisy spacing with a coarse anchor that is no multiple of it: cleaner_range's fallback rounded
+# the anchor to a multiple of the spacing — was decided a genuine defect and repaired in /repo by fix D49: the class is generated and
+# ENFORCED now (`check_displaced_region`, free anchors for the noisy-spacing lattices, corpus/C01/d49_noisy_dh_coarse_anchor.json))
 
 
 def _displaced_class(v, dhf):
-    """the awaiting-decision class of `cleaner_range(v, ..., dhf)` (documented rule of calc.py:237-255)"""
+    """the class of defect D49 of `cleaner_range(v, ..., dhf)` (coarse anchor, fine noisy step, anchor no multiple of the step)"""
     dec_s, dec_h = num_decimals(v), num_decimals(dhf)
     return dec_h >= 16 and 10 ** dec_s < 1 / dhf and (Fraction(float(v)) / Fraction(dhf)).denominator != 1
 
@@ -1266,6 +1265,16 @@ def gen_lattice(rng, tier):
         return dh * rng.randint(-300, 300)
 
     ax, ay = anchor(nx), anchor(ny)
+    fine_far = (not noisy) and rng.random() < 0.1
+    if fine_far:
+        # a FINE lattice FAR from the coordinate origin (city-scale grids: spacing 0.0001 .. 0.0005 degrees at |lon| up to 180,
+        # |lat| up to 80): the ratio coordinate / spacing is 10^5 .. 10^6, where any formula that multiplies coordinates before it
+        # subtracts (area-weighted centroids, scaled differences) loses the cell. Added after the seeded change C01_9 turned out to
+        # be caught only by the luck of the draw (|anchor| / dh of the other classes rarely exceeds 10^4).
+        dh = Decimal(rng.choice(["0.0001", "0.0002", "0.0003", "0.0005"]))
+        ax = Decimal(rng.choice([-1, 1]) * rng.randint(3000, 17990)).scaleb(-2)
+        ay = Decimal(rng.choice([-1, 1]) * rng.randint(2000, 7990)).scaleb(-2)
+        kind = "fine-far"
     full = [(i, j) for i in range(nx) for j in range(ny)]
     cells = list(full)
     hole = rng.choice(["none", "none", "random", "rect", "column", "row", "sparse"])
@@ -1327,14 +1336,11 @@ def gen_lattice(rng, tier):
                 meta=f"{kind}/{shape}/{hole}/{order}" + ("/noisy-dh" if noisy else ""))
     if noisy:
         spec["noisy"] = True       # edges are the lattice to rounding only (fallback path of cleaner_range): loose comparison
-        # keep out of the awaiting-decision class (a coarse anchor that is not a multiple of a fine noisy step): anchor the
-        # lattice at a multiple of the step instead
+        # (until fix D49 the lattice had to be kept out of the class "coarse anchor that is no multiple of a fine noisy step";
+        # now every anchor is generated)
         org = numpy.array(lattice_origins(_spec_cells_tuple(spec)), dtype=float)
-        dhf = float(dh)
-        if _displaced_class(org[:, 0].min(), dhf):
-            spec["ax"] = str(dh * rng.randint(-300, 300))
-        if _displaced_class(org[:, 1].min(), dhf):
-            spec["ay"] = str(dh * rng.randint(-300, 300))
+        if _displaced_class(org[:, 0].min(), float(dh)) or _displaced_class(org[:, 1].min(), float(dh)):
+            spec["meta"] += "/D49-class"
         if spec["ctor"] == "from_origins_nodh":
             spec["ctor"] = "from_origins"      # the spacing cannot be read off two reprs that carry 17 digits of noise
     return spec
@@ -1355,8 +1361,10 @@ def run_corpus(run, drv, pending):
         run.count("corpus")
 
 
-def observe_displaced_region(run, rng):
-    """the awaiting-decision class `AWAITING_DECISION_BUILD[0]`: counted with a witness, not enforced"""
+def check_displaced_region(run, rng):
+    """the class of defect D49 (repaired): a 4 x 3 lattice with a spacing of 16+ decimals anchored at a one-decimal point that is no
+    multiple of it, origins computed as anchor + k*dh: the edge arrays start AT the anchor, the region contains its own origins and
+    midpoints"""
     from csep.core.regions import CartesianGrid2D
     dhf = rng.choice([1 / 30, 1 / 35, 1 / 60, 1 / 70, 0.0712345678901234])
     for _ in range(20):
@@ -1366,22 +1374,27 @@ def observe_displaced_region(run, rng):
     else:
         return
     o = numpy.array([[ax + i * dhf, ay + j * dhf] for i in range(4) for j in range(3)])
+    # (the case is an ordinary lattice spec: its replay runs the whole region check on it, as corpus/C01/d49_*.json does)
+    spec = dict(kind="lattice", ax=repr(ax), ay=repr(ay), dh=repr(dhf), cells=[[i, j] for i in range(4) for j in range(3)], mask=None,
+                ctor="from_origins", dh_int=False, origins="float", noisy=True, meta="D49/coarse-anchor")
+    case = dict(region=spec, points=[[repr(float(a)), repr(float(b))] for a, b in o] + [[repr(float(a + dhf / 2)), repr(float(b + dhf / 2))] for a, b in o],
+                what="noisy-dh-coarse-anchor")
+    run.evaluations += 1
+    run.count("D49 class: region with a noisy spacing and a coarse anchor")
     try:
-        r = CartesianGrid2D.from_origins(o, dh=dhf)
+        r = CartesianGrid2D.from_origins(o.copy(), dh=dhf)
         m = numpy.asarray(r.get_masked(o[:, 0] + dhf / 2, o[:, 1] + dhf / 2)).astype(bool)
         own = numpy.asarray(r.get_masked(o[:, 0], o[:, 1])).astype(bool)
-        nbad = int(m.sum()) + int(own.sum()) + (0 if len(r.xs) == 4 and len(r.ys) == 3 else 1) + \
-            int(abs(float(r.xs[0]) - ax) > 1e-9 * max(1.0, abs(ax))) + int(abs(float(r.ys[0]) - ay) > 1e-9 * max(1.0, abs(ay)))
+        idx = numpy.asarray(r.get_index_of(o[:, 0] + dhf / 2, o[:, 1] + dhf / 2)) if not m.any() else None
     except Exception as e:
-        nbad, m = 1, type(e).__name__
-    run.evaluations += 1
-    if nbad:
-        run.count("awaiting-decision: region with a noisy spacing and a coarse anchor is displaced (masks its own midpoints)")
-        run.extra.setdefault("awaiting_decision_witness_build",
-                             f"from_origins(anchor ({ax!r}, {ay!r}) + (i, j)*dh, 4 x 3 cells, dh={dhf!r}): xs[0]={float(r.xs[0])!r}, "
-                             f"ys[0]={float(r.ys[0])!r}, {int(numpy.sum(m))} of 12 own midpoints and {int(numpy.sum(own))} of 12 own origins masked")
-    else:
-        run.count("noisy spacing with a coarse anchor: not displaced")
+        run.oracle_failure(case, f"from_origins / lookups raised {type(e).__name__}: {e}")
+        return
+    tol = 1e-12 * max(1.0, abs(ax), abs(ay))
+    if len(r.xs) != 4 or len(r.ys) != 3 or abs(float(r.xs[0]) - ax) > tol or abs(float(r.ys[0]) - ay) > tol or m.any() or own.any() or \
+            idx is None or idx.tolist() != list(range(12)):
+        run.oracle_failure(case, f"from_origins(anchor ({ax!r}, {ay!r}) + (i, j)*dh, 4 x 3 cells, dh={dhf!r}): xs[0]={float(r.xs[0])!r}, "
+                                 f"ys[0]={float(r.ys[0])!r} ({len(r.xs)} x {len(r.ys)} edges), {int(m.sum())} of 12 own midpoints and "
+                                 f"{int(own.sum())} of 12 own origins masked")
 
 
 def check_global(run, dh, build):
@@ -1442,9 +1455,10 @@ def run(run, rng, tier):
             run.oracle_failure(dict(region=dict(kind="shipped", name="global1"), points=[], what="global", dh=repr(dh)),
                                f"global_region(dh={dh!r}): a returned value could not be used ({type(e).__name__}: {str(e)[:160]})")
     for _ in range(3 if tier == "quick" else 20):
-        observe_displaced_region(run, rng)
-    nlat = 100 if tier == "quick" else 1150
+        check_displaced_region(run, rng)
+    nlat = 75 if tier == "quick" else 1000
     run.extra["_big_quota"] = 2 if tier == "quick" else 25
+    run.extra["_tier"] = tier
     budget = 1400 if tier == "quick" else 2500
     for n in range(nlat):
         spec = _spec_cells_tuple(gen_lattice(rng, tier))
@@ -1487,6 +1501,7 @@ def run(run, rng, tier):
 def _finish_bits(run):
     run.extra.pop("_big_done", None)
     run.extra.pop("_big_quota", None)
+    run.extra.pop("_tier", None)
     b = run.extra.pop("_bit", [0, 0, {}])
     run.extra["bitexact_agreement"] = f"{b[0]}/{b[1]}"
     run.extra["bitexact_differences"] = b[2]
@@ -1505,7 +1520,7 @@ def replay(run, payload):
     if str(case.get("what", "")).startswith("ops:"):
         # a derived-region / catalog-session case: the region with freshly generated points, the operation re-drawn from its seed
         only = dict(masked_region=["masked"], filter_spatial=["filter"], increase_grid_resolution=["incres"],
-                    grid_spacing=["incres"], shared_session=["shared"], aftershock_region=["aftershock"], nonfinite=["nonfinite"], big_catalog=["big"]).get(case["what"][4:], ["eq"])
+                    grid_spacing=["incres"], shared_session=["shared"], aftershock_region=["aftershock"], rebinding_history=["rebind"], sizes_and_forms=["sizes"], nonfinite=["nonfinite"], big_catalog=["big"]).get(case["what"][4:], ["eq"])
         check_region(run, drv, pending, spec, pts=None, rng=__import__("random").Random(case.get("ops_seed", 0)), arrays=arrays,
                      tag="replay", build=False, ops_seed=case.get("ops_seed", 0), ops_only=only)
     else:
